@@ -777,6 +777,7 @@ Definition case (t : list (list N * list N)) (c : container) (impl aligned : lis
                                         'games': [[g.decode('latin1'), fl, gv, d.hex()] for g, fl, gv, d in c['games']]},
                           'how': 'encode with harness.c10_util.encode_container(align=True), BSP(file), save, compare with the container'})
             ck.explain('correspondence:container-model')
+            ck.explain('correspondence:container')      # the same disagreement seen by the independent Python encoder
 
 
 # ================================================================================================ main
@@ -989,7 +990,7 @@ def run(ck: Ck) -> None:
     ck.sample({'input': default.desc, 'cycles': [['faces', 'ents'], ['bmodels']],
                'result': run_trial(default, [['faces', 'ents'], ['bmodels']], work, own) or 'lossless'})
     # a broken graph obligation that the small search could not turn into a failing history: search harder
-    broken = [o['name'] for o in ck.obligations if not o['ok']]
+    broken = [o['name'] for o in ck.obligations if not o['ok'] and not o.get('explained')]
     if broken and not found and not ck.thorough:
         ck.tie_broken.append('obligations failed and the quick search found no failing history: ' + ', '.join(broken))
         for i in range(1500):
